@@ -42,7 +42,7 @@ def strategy(ctx):
 
 
 def budget(ctx):
-    return dict(max_examples=ctx.pick(1600, 24000), shards=16)
+    return dict(max_examples=ctx.pick(1600, 60000), shards=16)
 
 
 def warmup():
